@@ -7,6 +7,7 @@ CONSTANTS
   Mins <- SmallMins
   ValClasses = {0, 1, 2, 3}
   VModes = {2}
+  Dists <- NoDists
   Orig = FALSE
   MaxReply = 0
   MaxInitLen = 0
